@@ -1406,7 +1406,7 @@ def run(ctx):
         one_case(ctx, r, lines, checks, directed=(vt, [((0, 1, 2, 'a'), F(-2)), ((0, 1, 3), F(1)), (('b',), F(3, 4)), ((2, 3), F(1, 2))]),
                  record_modes=['ok', 'permuted', 'zero-rows', 'drop-product', 'drop-factor', 'drop-polyvar', 'dup-field', 'direct'])
     one_case(ctx, r, lines, checks, directed=('SPIN', [((0, 1), F(-2)), ((0,), F(1))]), record_modes=['ok', 'zero-rows', 'drop-polyvar', 'direct'])
-    for _ in range(ctx.scale(230, 2200)):
+    for _ in range(ctx.scale(230, 1600)):
         one_case(ctx, r, lines, checks)
     # histories on one polynomial object (stale per-object caches: seed C15-9 and its class)
     for vt in ('BINARY', 'SPIN'):
